@@ -1,7 +1,10 @@
 // c04.cpp — the five MPI entry points on the real code, under a real MPI runtime (run with mpiexec -n P).
 //   usage: c04 <case file> <out prefix> [tbb threads, default 1]
 // Every rank reads the same case file; one case per line:
-//   <alg> <D|I> <scale> <pseed> <graph>      alg = signed | fvs | fvs_tbb | iso | iso_tbb
+//   <alg> <D|I|L> <scale> <pseed> <graph>    alg = signed | fvs | fvs_tbb | iso | iso_tbb; D = double weights w*2^scale, I = int weights,
+//                                            L = long long weights (64-bit integers, values above 2^53 included)
+//   G <alg> <D|I|L> <scale> <pseed> <graph>  the same without the ROOTS / EORD oracles (graphs with tens of thousands of vertices, judged
+//                                            against the property text only; EORD costs O(m^2) here)
 //   T <k>                                    self-test of the reduction order of boost::mpi::reduce (see below)
 // Rank r appends exactly one line per case to <out prefix>.<r>:
 //   ROOTS .. EORD .. [RET w N k CYC ..] RANK r EMITTED <count> DONE
@@ -45,7 +48,7 @@ static std::vector<void*> perturb_heap(unsigned long long pseed, int rank, size_
     std::vector<void*> keep;
     if (pseed == 0) return keep;
     unsigned long long s = pseed * 1000003ULL + (unsigned long long) (rank + 1) * 7919ULL;
-    const size_t sizes[] = { 40, 48, 24, 56, 32 };     // list_edge<size_t, property<edge_weight_t,double|int>> node is 40 bytes
+    const size_t sizes[] = { 40, 48, 24, 56, 32 };     // list_edge<size_t, property<edge_weight_t,double|int|long long>> node is 40 bytes
     for (size_t si = 0; si < sizeof(sizes) / sizeof(sizes[0]); si++) {
         size_t cnt = 2 * m + 8 + lcg(s) % 16;
         std::vector<void*> blk;
@@ -57,14 +60,14 @@ static std::vector<void*> perturb_heap(unsigned long long pseed, int rank, size_
     return keep;
 }
 
-template<class G> void run_alg(const std::string &alg, Toks &t, int scale, std::ostream &out, boost::mpi::communicator &world) {
+template<class G> void run_alg(const std::string &alg, Toks &t, int scale, std::ostream &out, boost::mpi::communicator &world, bool oracles = true) {
     typedef typename boost::graph_traits<G>::edge_descriptor Edge;
     unsigned long long pseed = std::stoull(t.next());
     size_t save = t.i; size_t m_hint = 0; { t.next_sz(); m_hint = t.next_sz(); t.i = save; }
     std::vector<void*> keep = perturb_heap(pseed, world.rank(), m_hint);
     {
         GCase<G> c; read_graph(t, c, scale);
-        print_oracles(out, c);
+        if (oracles) print_oracles(out, c); else out << "ROOTS EORD";
         std::list<std::list<Edge>> cycles;
         auto wm = boost::get(boost::edge_weight, c.g);
         typename boost::property_traits<decltype(wm)>::value_type ret;
@@ -118,8 +121,13 @@ int main(int argc, char **argv) {
             std::string alg = t.next();
             if (alg == "T") run_redtest(t, out, world);
             else {
+                bool oracles = true;
+                if (alg == "G") { oracles = false; alg = t.next(); }
                 std::string ty = t.next(); int scale = (int) t.next_ll();
-                if (ty == "D") run_alg<DGraph>(alg, t, scale, out, world); else run_alg<IGraph>(alg, t, 0, out, world);
+                if (ty == "D") run_alg<DGraph>(alg, t, scale, out, world, oracles);
+                else if (ty == "L") run_alg<LGraph>(alg, t, 0, out, world, oracles);
+                else if (ty == "I") run_alg<IGraph>(alg, t, 0, out, world, oracles);
+                else throw std::runtime_error("bad weight type");
             }
         }
         catch (const std::exception &e) { out.str(""); out << "IMPL-EXCEPTION " << e.what(); failed = true; }
